@@ -149,6 +149,30 @@ func VC25_Pair() {
 	vReach("usable")
 }
 
+// export policy replacement on an add-path session whose Loc-RIB holds a route that must not be advertised
+// (NO_ADVERTISE): sequential, must return
+func VC25_RefreshAddPath() {
+	v := vrf.NewUntrackedVRF("master", 0)
+	_ = v
+	outSA := routingtable.SessionAttrs{RouterID: 1, PeerIP: bnet.IPv4FromOctets(169, 254, 100, 100).Ptr(), LocalIP: bnet.IPv4FromOctets(169, 254, 100, 1).Ptr(), Type: route.BGPPathType, IBGP: true, LocalASN: 65000, PeerASN: 65000, AddPathTX: vParam("addpath") == 1}
+	rib := locRIB.New("inet.0")
+	aro := adjRIBOut.New(rib, outSA, filter.NewAcceptAllFilterChain())
+	aro.Register(&c25Client{})
+	rib.RegisterWithOptions(aro, routingtable.ClientOptions{MaxPaths: 4})
+	p := c25Path(7)
+	if ndBool() {
+		coms := types.Communities{types.WellKnownCommunityNoAdvertise}
+		p.BGPPath.Communities = &coms
+	}
+	rib.AddPath(c25Pfx(0), p)
+	rib.AddPath(c25Pfx(1), c25Path(8))
+	aro.ReplaceFilterChain(c25Chain())
+	vReach("replaced")
+	_ = aro.Dump()
+	rib.AddPath(c25Pfx(2), c25Path(9))
+	vReach("usable")
+}
+
 // the client manager alone: registration after disposal must not leave its lock held
 func VC25_ClientManager() {
 	cm := routingtable.NewClientManager(&c25Client{})
